@@ -67,12 +67,86 @@ static void probe(char *out)
 {
 	snprintf(out, 32, "%f|%.2f", 1.5, 2.25);
 }
-static void run_case(const pcase *c, int inject, const char *mode, const char *loc, json_object **val_out, const char **st_out, int emit,
-                     json_object *ref_val, const char *ref_st)
+/* generated texts: documents whose numbers take every printf shape (%f %e %E %g, precision 0..17, signs, exponents),
+ * next to strings containing '.' and ',' (which must not be touched) */
+#define MAXGEN 400
+static pcase gcases[MAXGEN];
+static int ngen;
+static double rand_double(void)
+{
+	switch (vh_below(4))
+	{
+	case 0: return ((double)(int64_t)(vh_rand() >> 20) - 8.0e12) / 1e6;
+	case 1: return (double)(vh_rand() >> 11) / 9007199254740992.0;
+	case 2: return ((double)vh_below(2000000) - 1e6) * (vh_below(2) ? 1e-12 : 1e15);
+	default:
+	{
+		static const double sp[] = {0.5, 1.5, -0.125, 1e20, 1.25e-10, 100.0, 0.1, 12345.678, 1e-5, 5.0, -0.0, 1e300, 2.2250738585072014e-308, 123456789.125};
+		return sp[vh_below(sizeof sp / sizeof *sp)];
+	}
+	}
+}
+static void fmt_number(char *out, size_t cap)
+{
+	static const char *f[] = {"%.*f", "%.*e", "%.*E", "%.*g", "%.*G"};
+	int which = (int)vh_below(5);
+	double d = rand_double();
+	if (which == 0 && (d > 1e18 || d < -1e18))
+		which = 1;
+	snprintf(out, cap, f[which], (int)vh_below(18), d);
+}
+static void gen_texts(int n)
+{
+	/* called in the C locale */
+	char num[4][400];
+	for (ngen = 0; ngen < n && ngen < MAXGEN; ngen++)
+	{
+		char *t = malloc(2000);
+		for (int j = 0; j < 4; j++)
+			fmt_number(num[j], sizeof num[j]);
+		switch (vh_below(5))
+		{
+		case 0: snprintf(t, 2000, "%s", num[0]); break;
+		case 1: snprintf(t, 2000, "[%s,%s , %s]", num[0], num[1], num[2]); break;
+		case 2: snprintf(t, 2000, "{\"a\":%s,\"1,5\":\"2.5,3.5\",\"b\":[%s,{\"c\":%s}]}", num[0], num[1], num[2]); break;
+		case 3: snprintf(t, 2000, " [ [ %s ] , \"%s\" , %s\n]", num[0], num[1], num[2]); break;
+		default: snprintf(t, 2000, "[%s,%s,%s,%s]", num[0], num[1], num[2], num[3]); break;
+		}
+		gcases[ngen].text = t;
+		gcases[ngen].len = -9;
+		gcases[ngen].flags = vh_below(3) ? 0 : JSON_TOKENER_STRICT;
+		gcases[ngen].depth = 32;
+	}
+}
+/* cut positions of split variant j (1..NSPLIT) of a text of n bytes (+ the terminator): deterministic in (case, j) */
+#define NSPLIT 3
+static int cuts_of(int ci, int j, int n, int *cuts)
+{
+	uint64_t h = (uint64_t)ci * 1000003ull + (uint64_t)j * 7919ull + 12345;
+	int nc = 0;
+	if (n < 2)
+		return 0;
+	int want = j == 1 ? 1 : j == 2 ? 2 : 4;
+	int pos = 0;
+	for (int k = 0; k < want; k++)
+	{
+		h = h * 6364136223846793005ull + 1442695040888963407ull;
+		int step = 1 + (int)((h >> 33) % (uint64_t)(n / want + 1));
+		pos += step;
+		if (pos >= n)
+			break;
+		cuts[nc++] = pos;
+	}
+	return nc;
+}
+/* one parse: in one call (ncuts = 0) or chunk by chunk; the locale observations span the whole sequence and are
+ * also taken after every single call */
+static void run_case(const pcase *c, int inject, const int *cuts, int ncuts, const char *mode, const char *loc, json_object **val_out,
+                     const char **st_out, int emit, json_object *ref_val, const char *ref_st)
 {
 	json_tokener *t = json_tokener_new_ex(c->depth);
 	json_tokener_set_flags(t, c->flags);
-	char pb[32], pa[32];
+	char pb[32], pa[32], pm[32];
 	probe(pb);
 	locale_t before = uselocale((locale_t)0);
 	long live0 = vh_loc_live;
@@ -83,7 +157,20 @@ static void run_case(const pcase *c, int inject, const char *mode, const char *l
 	if (inject == 2)
 		vh_loc_new_fail = 1;
 	int len = c->len == -9 ? (int)strlen(c->text) + 1 : c->len;
-	json_object *o = json_tokener_parse_ex(t, c->text, len);
+	json_object *o = NULL;
+	int every_call_ok = 1, ncalls = 0, from = 0;
+	for (int k = 0; k <= ncuts; k++)
+	{
+		int to = k < ncuts ? cuts[k] : len;
+		o = json_tokener_parse_ex(t, c->text + from, c->len == -2 ? c->len : to - from);
+		ncalls++;
+		probe(pm);
+		if (uselocale((locale_t)0) != before || strcmp(pm, pb) || vh_loc_live != live0)
+			every_call_ok = 0;
+		from = to;
+		if (json_tokener_get_error(t) != json_tokener_continue)
+			break;
+	}
 	const char *st = errname(json_tokener_get_error(t));
 	vh_loc_dup_fail = vh_loc_new_fail = 0;
 	locale_t after = uselocale((locale_t)0);
@@ -95,11 +182,21 @@ static void run_case(const pcase *c, int inject, const char *mode, const char *l
 		ev_str("loc", loc);
 		ev_bytes("text", c->text, strlen(c->text));
 		ev_int("inject", inject);
+		ev_int("ncalls", ncalls);
+		{
+			long long cl[8];
+			for (int k = 0; k < ncuts; k++)
+				cl[k] = cuts[k];
+			ev_ints("cuts", cl, (size_t)ncuts);
+		}
 		ev_bool("handle_same", before == after);
+		ev_bool("every_call_ok", every_call_ok);
 		ev_bytes("probe_before", pb, strlen(pb));
 		ev_bytes("probe_after", pa, strlen(pa));
 		ev_int("loc_leak", (int)(vh_loc_live - live0));
 		ev_str("calls", vh_loc_log);
+		ev_bool("hit_dup_fail", strchr(vh_loc_log, 'D') != NULL);
+		ev_bool("hit_new_fail", strchr(vh_loc_log, 'N') != NULL);
 		ev_str("st", st);
 		dump_value("val", o);
 		ev_str("ref_st", ref_st);
@@ -115,7 +212,7 @@ static void run_case(const pcase *c, int inject, const char *mode, const char *l
 	json_tokener_free(t);
 }
 
-static json_object *ser_tree(void)
+static json_object *ser_tree(int nrand)
 {
 	json_object *a = json_object_new_array();
 	static const double v[] = {1.5, -0.125, 1e20, 1.25e-10, 100.0, 0.1, 12345.678, 1e-5, 5.0};
@@ -124,24 +221,53 @@ static json_object *ser_tree(void)
 	json_object_array_add(a, json_object_new_double_s(2.5, "2.50"));
 	json_object *o = json_object_new_object();
 	json_object_object_add(o, "x", json_object_new_double(0.75));
+	json_object_object_add(o, "1,5", json_object_new_string("2,5 and 3.5"));
 	json_object_array_add(a, o);
+	for (int i = 0; i < nrand; i++)
+		json_object_array_add(a, json_object_new_double(rand_double()));
 	return a;
 }
+static const int fl[] = {0, JSON_C_TO_STRING_SPACED, JSON_C_TO_STRING_PRETTY, JSON_C_TO_STRING_NOZERO, JSON_C_TO_STRING_PRETTY | JSON_C_TO_STRING_NOZERO};
+/* serialization variants: 0..4 flag sets with the default format, 5..7 with a configured global double format */
+#define NSER 8
+static const char *ser_variant(json_object *tree, int f)
+{
+	static const char *gf[] = {"%.3f", "%.17g", "%e"};
+	if (f >= 5)
+		json_c_set_serialization_double_format(gf[f - 5], JSON_C_OPTION_GLOBAL);
+	const char *t = json_object_to_json_string_ext(tree, f < 5 ? fl[f] : 0);
+	if (f >= 5)
+		json_c_set_serialization_double_format(NULL, JSON_C_OPTION_GLOBAL);
+	return t;
+}
 
-static int drive(void)
+static int drive(int ngenwant)
 {
 	dump_bits = 1;
-	/* reference results in the C locale */
-	json_object *refv[NCASES];
-	const char *refs[NCASES];
+	const char *seed = getenv("VERIF_SEED");
+	vh_srand((seed ? strtoull(seed, 0, 10) : 1) * 1000003ull + 14);
 	setlocale(LC_ALL, "C");
-	for (int i = 0; i < NCASES; i++)
-		run_case(&cases[i], 0, "ref", "C", &refv[i], &refs[i], 0, NULL, "");
-	json_object *tree = ser_tree();
-	char *reftext[8];
-	static const int fl[] = {0, JSON_C_TO_STRING_SPACED, JSON_C_TO_STRING_PRETTY, JSON_C_TO_STRING_NOZERO, JSON_C_TO_STRING_PRETTY | JSON_C_TO_STRING_NOZERO};
-	for (int f = 0; f < 5; f++)
-		reftext[f] = strdup(json_object_to_json_string_ext(tree, fl[f]));
+	gen_texts(ngenwant);
+	int NC = NCASES + ngen;
+	pcase *all = malloc(sizeof(pcase) * (size_t)NC);
+	memcpy(all, cases, sizeof cases);
+	memcpy(all + NCASES, gcases, sizeof(pcase) * (size_t)ngen);
+	/* reference results in the C locale: variant 0 = one call, 1..NSPLIT = chunked */
+	json_object *(*refv)[NSPLIT + 1] = calloc((size_t)NC, sizeof *refv);
+	const char *(*refs)[NSPLIT + 1] = calloc((size_t)NC, sizeof *refs);
+	int cuts[8];
+	for (int i = 0; i < NC; i++)
+		for (int j = 0; j <= NSPLIT; j++)
+		{
+			if (j && all[i].len != -9)
+				continue;
+			int nc = j ? cuts_of(i, j, (int)strlen(all[i].text), cuts) : 0;
+			run_case(&all[i], 0, cuts, nc, "ref", "C", &refv[i][j], &refs[i][j], 0, NULL, "");
+		}
+	json_object *tree = ser_tree(ngenwant);
+	char *reftext[NSER];
+	for (int f = 0; f < NSER; f++)
+		reftext[f] = strdup(ser_variant(tree, f));
 	static const char *modes[] = {"global", "thread"};
 	static const char *locs[] = {"C", "xx_COMMA"};
 	for (int m = 0; m < 2; m++)
@@ -169,20 +295,26 @@ static int drive(void)
 			ev_bool("installed", installed);
 			ev_bytes("probe", pr, strlen(pr));
 			ev_end();
-			for (int i = 0; i < NCASES; i++)
+			for (int i = 0; i < NC; i++)
 			{
-				run_case(&cases[i], 0, modes[m], locs[l], NULL, NULL, 1, refv[i], refs[i]);
-				if (cases[i].len != -2)
+				run_case(&all[i], 0, cuts, 0, modes[m], locs[l], NULL, NULL, 1, refv[i][0], refs[i][0]);
+				if (all[i].len != -2 && i < NCASES + 10)
 				{
-					run_case(&cases[i], 1, modes[m], locs[l], NULL, NULL, 1, refv[i], refs[i]);
-					run_case(&cases[i], 2, modes[m], locs[l], NULL, NULL, 1, refv[i], refs[i]);
+					run_case(&all[i], 1, cuts, 0, modes[m], locs[l], NULL, NULL, 1, refv[i][0], refs[i][0]);
+					run_case(&all[i], 2, cuts, 0, modes[m], locs[l], NULL, NULL, 1, refv[i][0], refs[i][0]);
 				}
+				if (all[i].len == -9)
+					for (int j = 1; j <= NSPLIT; j++)
+					{
+						int nc = cuts_of(i, j, (int)strlen(all[i].text), cuts);
+						run_case(&all[i], 0, cuts, nc, modes[m], locs[l], NULL, NULL, 1, refv[i][j], refs[i][j]);
+					}
 			}
-			for (int f = 0; f < 5; f++)
+			for (int f = 0; f < NSER; f++)
 			{
 				char pb[32], pa[32];
 				probe(pb);
-				const char *t = json_object_to_json_string_ext(tree, fl[f]);
+				const char *t = ser_variant(tree, f);
 				probe(pa);
 				ev_begin("ser");
 				ev_str("mode", modes[m]);
@@ -219,18 +351,23 @@ static int drive(void)
 			}
 			setlocale(LC_ALL, "C");
 		}
-	for (int i = 0; i < NCASES; i++)
-		if (refv[i])
-			json_object_put(refv[i]);
-	for (int f = 0; f < 5; f++)
+	for (int i = 0; i < NC; i++)
+		for (int j = 0; j <= NSPLIT; j++)
+			if (refv[i][j])
+				json_object_put(refv[i][j]);
+	for (int f = 0; f < NSER; f++)
 		free(reftext[f]);
+	for (int i = 0; i < ngen; i++)
+		free((char *)gcases[i].text);
+	free(all);
+	free(refv);
+	free(refs);
 	json_object_put(tree);
 	return 0;
 }
 int c14_main(int argc, char **argv)
 {
-	(void)argv;
 	if (argc >= 1)
-		return drive();
+		return drive(argc >= 2 ? atoi(argv[1]) : 30);
 	return 2;
 }
